@@ -100,10 +100,12 @@ pub fn unify(state: &mut TypeCheckerState, watchdog: &DynWatchdog) -> Result<()>
             // Dynamic bytes and dynamic arrays absorb words without remembering them, so the
             // result of the fold can depend on the order in which the expressions meet. The
             // set has no order of its own, so we fold in a fixed one: words meet each other
-            // first, and the absorbing types come last.
-            inferred_expressions
-                .make_contiguous()
-                .sort_by_cached_key(|expression| (fold_rank(expression), format!("{expression:?}")));
+            // first, and the absorbing types come last. Type variables are numbered in the order
+            // in which values happened to be registered, so expressions of one kind are ordered
+            // by what they say before they are ordered by the names of their variables.
+            inferred_expressions.make_contiguous().sort_by_cached_key(|expression| {
+                (fold_rank(expression), fold_shape(expression), format!("{expression:?}"))
+            });
             let mut current = inferred_expressions
                 .pop_front()
                 .expect("We know there is at least one item in the expressions queue");
@@ -619,6 +621,24 @@ fn fold_rank(expression: &TE) -> u8 {
         TE::DynamicArray { .. } => 5,
         TE::Bytes => 6,
         TE::Conflict { .. } => 7,
+    }
+}
+
+/// The content of `expression` that does not depend on how its type variables are named.
+fn fold_shape(expression: &TE) -> String {
+    match expression {
+        TE::Any | TE::Bytes | TE::Word { .. } => format!("{expression:?}"),
+        TE::Equal { .. } | TE::Mapping { .. } | TE::DynamicArray { .. } => String::new(),
+        TE::FixedArray { length, .. } => format!("{length:?}"),
+        TE::Packed { types, is_struct } => {
+            let spans: Vec<_> = types.iter().map(|span| (span.offset, span.size)).collect();
+            format!("{is_struct} {spans:?}")
+        }
+        TE::Conflict { conflicts, .. } => conflicts
+            .iter()
+            .map(|conflict| format!("{}:{}", fold_rank(conflict), fold_shape(conflict)))
+            .collect::<Vec<_>>()
+            .join(","),
     }
 }
 
